@@ -260,6 +260,9 @@ def wasserstein_matching(dgm1, dgm2, matching, labels=["dgm1", "dgm2"], ax=None)
 
     """
     ax = ax or plt.gca()
+    # the diagrams are plotted as given; the padding of empty diagrams below
+    # only serves the segment arithmetic
+    dgms = [dgm1, dgm2]
 
     cp = np.cos(np.pi / 4)
     sp = np.sin(np.pi / 4)
@@ -285,4 +288,4 @@ def wasserstein_matching(dgm1, dgm2, matching, labels=["dgm1", "dgm2"], ax=None)
             else:
                 ax.plot([dgm1[i, 0], dgm2[j, 0]], [dgm1[i, 1], dgm2[j, 1]], "g")
 
-    plot_diagrams([dgm1, dgm2], labels=labels, ax=ax)
+    plot_diagrams(dgms, labels=labels, ax=ax)
